@@ -1211,7 +1211,7 @@ theorem sendCheckedK_ne_closed (cfg : Cfg) (c : Content) (k : Bool) : sendChecke
 
 theorem completedOutcome_ne_closed (cfg : Cfg) (rs : List (Content × List Nat)) (c : Content) (k : Bool) :
     completedOutcome cfg rs c k ≠ .closed := by
-  unfold completedOutcome
+  unfold completedOutcome completedOutcomeWith
   intro h
   split at h
   · exact sendCheckedK_ne_closed _ _ _ h
